@@ -134,8 +134,9 @@ def cross(left, right):
 
 
 def join(left, right, cond, kind, wl, wr):
-    """kind in INNER|LEFT|RIGHT|FULL|CROSS; cond(l + r) 3VL (ignored for CROSS); wl/wr = widths (needed for padding)."""
-    if kind == "CROSS":
+    """kind in INNER|LEFT|RIGHT|FULL|CROSS; cond(l + r) 3VL; wl/wr = widths (needed for padding).
+    CROSS without a condition is the product; CROSS JOIN ... ON <condition> (SQLite / MySQL accept it) is an inner join."""
+    if kind == "CROSS" and cond is None:
         return cross(left, right)
     out, hit_l, hit_r = [], set(), set()
     for i, l in enumerate(left):
